@@ -71,3 +71,9 @@ claim("C11", "DESIGN.md 5/C11",
       "id, at most one), without delete/clean options nothing is removed, files are created only under --json and only "
       "as <pel file>.<entry id>.json in the chosen directory; dedicated harnesses for --delete (id spelling symbolic, "
       "id present at top level / only in the archive / nowhere / in the directory path) and --delete-all.")
+
+claim("C10", "DESIGN.md 5/C10",
+      "The real main() is executed for --plid, --bmc-id, --id, --src and --src-exclude in an in-memory world with the "
+      "stored id (all 32-bit values), the queried id, its spelling (0x/0X/none, digit case), reference-code characters, "
+      "query strings, exclusion-file content and the log's hidden/report flags symbolic; the listed / displayed set "
+      "must be exactly the matches ('PEL not found' / empty result otherwise), with no selection option given.")
